@@ -561,7 +561,10 @@ func (bl *PBlock) primitiveBlock() []byte {
 							wp.Bytes(4, infoBytes(w.Info))
 						}
 					},
-					func() { wp.Packed(8, w.Refs, true); wp.Packed(9, w.Lat, true); wp.Packed(10, w.Lon, true) })
+					// three separate fields: in the reversed layout the location columns come before the refs
+					func() { wp.Packed(8, w.Refs, true) },
+					func() { wp.Packed(9, w.Lat, true) },
+					func() { wp.Packed(10, w.Lon, true) })
 				gp.Bytes(3, wp.b)
 			}
 			writeRel := func(r PRel) {
